@@ -7,6 +7,8 @@
     Everything observed is returned; every concrete input admitted by a path must give the reference (Foundry model) result.
  S. state cheatcodes (deal, store, load, etch, warp, roll, fee, chainId, coinbase, difficulty) with symbolic and concrete
     arguments, followed by reads of the targeted and of other accounts / all block fields, in the frame and in a nested frame.
+ T. later transactions: a prank (all four forms) left active by setUp(), or by a target call of an invariant test, must not change the
+    CALLER / ORIGIN observed in the following transaction (run_contract on hand-assembled artifacts).
  F. fresh symbols: every svm.create* / vm.random* variant is *called through the real dispatcher* from a generated program and the
     returned term is judged by SMT: range is exactly the requested type (not smaller, not larger), encoding (sign extension,
     left alignment, ABI tuple for bytes/string), (min,max) ranges exact, and independence: for every pair of values created
@@ -359,11 +361,70 @@ def fresh_case(seed, idx, res):
     res["distinct"].append(f"F:{idx}")
 
 
+# ---------------------------------------------------------------------------------------------- later transactions
+def tx_case(seed, idx, res):
+    """a prank left active at the end of a transaction (setUp, or a target call of an invariant test) must not change the sender seen in a
+    later transaction: run_contract on hand-assembled artifacts; the observer whoami() reports CALLER"""
+    import artifacts as A
+    import invgen
+    from artifacts import Fn, arg, panic
+
+    rng = random.Random(f"c14-T-{seed}-{idx}")
+    U = ("uint", 256)
+    form = rng.choice(["prank(address)", "prank(address,address)", "startPrank(address)", "startPrank(address,address)"])
+    who = [("push", rng.choice([0xBEEF, 0xCAFE, foundry.CALLER]), 20)]
+    prank = A.vm(form, who, who) if form.count("address") == 2 else A.vm(form, who)
+    mode = rng.choice(["setup", "invariant"])
+    res["features"][f"T:{mode}:{form}"] += 1
+    res["counters"]["evaluations"] += 1
+    whoami = Fn("whoami", [], ["CALLER", 0, "MSTORE", "ORIGIN", 32, "MSTORE", 64, 0, "RETURN"], mutability="view", outputs=[U, U])
+    call_self = lambda addr_toks: [("push", int.from_bytes(whoami.selector, "big") << 224, 32), 0x300, "MSTORE", 64, 0x500, 4, 0x300, 0] + addr_toks + [0xFFFF, "CALL", "POP"]
+    if mode == "setup":
+        # setUp leaves a prank open; the test calls this.whoami(): the caller must be this contract, the origin the default origin
+        setup = Fn("setUp", [], prank + ["STOP"])
+        body = call_self(["ADDRESS"]) + [0x500, "MLOAD", "ADDRESS", "EQ", "ISZERO", "@bad", "JUMPI", 0x520, "MLOAD", ("push", foundry.CALLER, 20), "EQ", "ISZERO", "@bad", "JUMPI", "STOP", ":bad"] + panic(1)
+        test = Fn("check_sender", [], body)
+        spec = A.ContractSpec("T", [setup, test, whoami])
+        out = A.run(A.make_ctx(spec, funsigs=[test.sig]))
+        want = 1
+    else:
+        # a target function leaves a prank open in its own transaction; the invariant (a later transaction) asks the target who calls it
+        target = A.ContractSpec("Target", [Fn("poke", [], prank + [1, 0, "SSTORE", "STOP"]), whoami, Fn("poked", [], [0, "SLOAD", 0, "MSTORE", 32, 0, "RETURN"], mutability="view", outputs=[U])])
+        init = target.creation()
+        st = []
+        padded = init + bytes((-len(init)) % 32)
+        for i in range(0, len(padded), 32):
+            st += [("push", int.from_bytes(padded[i : i + 32], "big"), 32), 0x400 + i, "MSTORE"]
+        st += [len(init), 0x400, 0, "CREATE", 0, "SSTORE", "STOP"]
+        setup = Fn("setUp", [], st)
+        tgt = [("push", invgen.TARGET0, 20)]
+        body = call_self(tgt) + [0x500, "MLOAD", "ADDRESS", "EQ", "ISZERO", "@bad", "JUMPI", "STOP", ":bad"] + panic(1)
+        inv = Fn("invariant_sender", [], body)
+        spec = A.ContractSpec("InvT", [setup, inv], filename="InvT.sol")
+        out = A.run(A.make_ctx(spec, funsigs=[inv.sig], overrides=dict(invariant_depth=2), others=[target]))
+        want = 1
+    if out.exception or len(out.results) != want:
+        res["counters"]["T_run_failed"] += 1
+        res["samples"].append(dict(part="T", index=idx, mode=mode, form=form, failed=(out.exception or "")[-300:], warnings=out.warnings()[:3]))
+        return
+    r = out.results[0]
+    res["counters"]["T_cases"] += 1
+    res["counters"][f"T_verdict_{r.exitcode}"] += 1
+    if r.exitcode == 1:
+        res["violations"].append(dict(what="a prank left active at the end of a transaction changed the sender / origin seen in a later transaction", key=f"prank-across-transactions:{mode}",
+                                      part="T", index=idx, mode=mode, form=form, prop="C14"))
+    elif r.exitcode == 0:
+        res["distinct"].append(f"T:{idx}")
+
+
 def worker(task):
     _imports()
     part, lo, hi, seed, tier = task
     res = new_result()
     for idx in range(lo, hi):
+        if part == "T":
+            tx_case(seed, idx, res)
+            continue
         if part == "F":
             try:
                 fresh_case(seed, idx, res)
@@ -385,7 +446,9 @@ def main():
     if run.replay:
         w = json.load(open(run.replay))["witness"]
         res = new_result()
-        if w.get("part") == "F":
+        if w.get("part") == "T":
+            tx_case(run.seed, int(w["index"]), res)
+        elif w.get("part") == "F":
             fresh_case(run.seed, int(w["index"]), res)
         else:
             history_case(w.get("part", "P"), run.seed, int(w["index"]), res, run.tier)
@@ -393,7 +456,7 @@ def main():
         run.finish()
     nP, nS, nF = run.n(400, 8000), run.n(300, 6000), run.n(600, 12000)
     tasks = []
-    for part, n, step in (("P", nP, 10), ("S", nS, 10), ("F", nF, 20)):
+    for part, n, step in (("P", nP, 10), ("S", nS, 10), ("F", nF, 20), ("T", run.n(24, 300), 3)):
         tasks += [(part, lo, min(n, lo + step), run.seed, run.tier) for lo in range(0, n, step)]
     run_pool(run, worker, tasks, soft_timeout=900)
     run.require("P_histories", 200)
@@ -403,6 +466,7 @@ def main():
     run.require("F_ranges_exact", 400)
     run.require("F_pairs_independent", 150)
     run.require("path_input_pairs", 1500)
+    run.require("T_verdict_0", 16)
     run.finish()
 
 
